@@ -6,7 +6,7 @@
 // ------------------------------------------------------------------------
 
 use super::{BerDecoder, BerHeader, SnmpOid, TAG_RELATIVE_OID, Tag};
-use crate::error::SnmpResult;
+use crate::error::{SnmpError, SnmpResult};
 
 #[derive(Debug, PartialEq, Clone)]
 pub struct SnmpRelativeOid<'a>(&'a [u8]);
@@ -23,6 +23,20 @@ impl<'a> BerDecoder<'a> for SnmpRelativeOid<'a> {
 }
 
 impl SnmpRelativeOid<'_> {
+    /// Checked version of `normalize` for data received from the network:
+    /// refuses inputs `normalize` cannot index into.
+    pub fn try_normalize<'a>(&self, oid: &SnmpOid) -> SnmpResult<SnmpOid<'a>> {
+        if oid.0.is_empty() || self.0.is_empty() {
+            return Err(SnmpError::InvalidData);
+        }
+        let rel_si = SnmpRelativeOid::subelements(self.0);
+        let base_si = SnmpRelativeOid::subelements(&oid.0[1..]) + 2;
+        if rel_si >= base_si - 2 && (self.0.len() < 2 || self.0[0] > 2 || self.0[1] > 39) {
+            // Full replacement needs two leading arcs which fit the first octet
+            return Err(SnmpError::InvalidData);
+        }
+        Ok(self.normalize(oid))
+    }
     /// Apply relative oid to absolute one
     /// and return normalized absolute oid
     pub fn normalize<'a>(&self, oid: &SnmpOid) -> SnmpOid<'a> {
